@@ -588,7 +588,8 @@ def _make_node(
     """Create a new node in `bdd` from `d`."""
     (uid, (level, low_id, high_id)), = d.items()
     k, level = map(int, (uid, level))
-    if k <= 0:
+    if k <= 1:
+        # 1 is the terminal node
         raise AssertionError(k)
     if level < 0:
         raise AssertionError(level)
